@@ -1,1 +1,166 @@
-From Verif Require Import Common.Base C12.Model.
+(* C12/Witness.v — non-vacuity of the hypotheses of Properties.v and concrete instances
+   (all by computation). *)
+From Verif Require Import Common.Base C12.Model C12.Proofs1 C12.Proofs2 C12.Proofs3 C12.Proofs4 C12.Proofs5.
+From Coq Require Import Ascii.
+Require Coq.Strings.String.
+Import Coq.Strings.String.StringSyntax.
+
+Definition L (s : String.string) : str := String.list_ascii_of_string s.
+Local Open Scope string_scope.
+
+(* a small provider table: scheme env *)
+Definition tbl : list (str * retrieved) :=
+  [ (L"A", mkRet (CStr (L"va")) None);
+    (L"B", mkRet (CStr (L"vb")) None);
+    (L"N", mkRet (CInt 42) (Some (L"42")));
+    (L"E", mkRet (CStr (L"")) None);
+    (L"P", mkRet (CStr (L"A")) None);
+    (L"M", mkRet (CMap [(L"a", CInt 1)]) None);
+    (L"R", mkRet (CStr (L"<${env:A}>")) None);
+    (L"CY", mkRet (CStr (L"${env:CY}")) None);
+    (L"CA", mkRet (CStr (L"${env:CB}")) None);
+    (L"CB", mkRet (CStr (L"b${env:CA}")) None) ].
+
+Fixpoint tlookup (k : str) (t : list (str * retrieved)) : res retrieved :=
+  match t with
+  | [] => Err [EProvider]
+  | (k', v) :: t' => if str_eqb k k' then Ok v else tlookup k t'
+  end.
+
+Definition env : str := L"env".
+Definition retr (sch opq : str) : res retrieved :=
+  if str_eqb sch env then tlookup opq tbl else Err [ENoScheme].
+Definition vals (n : str) : str :=
+  if str_eqb n (L"env:A") then L"va" else if str_eqb n (L"A") then L"va"
+  else if str_eqb n (L"env:B") then L"vb" else if str_eqb n (L"env:N") then L"42" else L"".
+
+Definition rs (s : String.string) : res cv := resolve_string env retr (L s).
+
+(* the two repaired defects (F9, F11) and the probe strings *)
+Example ex_f9 : rs "${env:A} $${env:A}" = Ok (CStr (L"va ${env:A}")).
+Proof. vm_compute. reflexivity. Qed.
+Example ex_f11 : rs "$${env:A} ${env:B}" = Ok (CStr (L"${env:A} vb")).
+Proof. vm_compute. reflexivity. Qed.
+Example ex_mixed : rs "${env:A}-$$-${B}" = Ok (CStr (L"va-$-vb")).
+Proof. vm_compute. reflexivity. Qed.
+Example ex_three_dollars : rs "$$${env:A}" = Ok (CStr (L"$va")).
+Proof. vm_compute. reflexivity. Qed.
+Example ex_four_dollars : rs "$$$${env:A}" = Ok (CStr (L"$${env:A}")).
+Proof. vm_compute. reflexivity. Qed.
+Example ex_typed : rs "${env:N}" = Ok (CExp (CInt 42) (L"42")).
+Proof. vm_compute. reflexivity. Qed.
+Example ex_embedded_typed : rs "x${env:N}" = Ok (CStr (L"x42")).
+Proof. vm_compute. reflexivity. Qed.
+Example ex_reexpanded : rs "${env:R}" = Ok (CStr (L"<va>")).
+Proof. vm_compute. reflexivity. Qed.
+Example ex_nested : rs "${env:${env:P}}" = Ok (CStr (L"va")).
+Proof. vm_compute. reflexivity. Qed.
+Example ex_map_embedded : rs "x${env:M}" = Err [ENoString].
+Proof. vm_compute. reflexivity. Qed.
+Example ex_dollar_name : rs "${env:A$}" = Err [EDollarInName].
+Proof. vm_compute. reflexivity. Qed.
+Example ex_unknown_scheme : rs "${nope:A}" = Err [ENoScheme].
+Proof. vm_compute. reflexivity. Qed.
+Example ex_bad_scheme : rs "${x:A}" = Err [EInvalidURI].
+Proof. vm_compute. reflexivity. Qed.
+Example ex_cycle1 : rs "${env:CY}" = Err [ETooMany].
+Proof. vm_compute. reflexivity. Qed.
+Example ex_cycle2 : rs "a${env:CA}" = Err [ETooMany].
+Proof. vm_compute. reflexivity. Qed.
+Example ex_unterminated : rs "${env:A" = Ok (CStr (L"${env:A")).
+Proof. vm_compute. reflexivity. Qed.
+(* no default scheme: ${A} is not a reference *)
+Example ex_no_default : resolve_string [] retr (L"${A} ${env:A}") = Ok (CStr (L"${A} va")).
+Proof. vm_compute. reflexivity. Qed.
+
+(* adjacent references whose neighbours expand to nothing collapse to ONE reference and become typed:
+   outside [anchored], and the reason for that hypothesis *)
+Example ex_collapse_typed : rs "${env:E}${env:N}" = Ok (CExp (CInt 42) (L"42")).
+Proof. vm_compute. reflexivity. Qed.
+
+(* hypotheses of expansion_refines_tokens are satisfiable: "x${env:A}$$${A}$y}$${env:B}${env:N}" *)
+Definition ex_ts : list tok :=
+  [TChar "x"%char; TRef (L"env:A"); TEsc; TRef (L"A"); TDollar; TChar "y"%char; TClose; TEsc; TChar "{"%char;
+   TChar "e"%char; TClose; TRef (L"env:N")].
+
+Lemma good_name n :
+  name_ok n = true -> ref_ok env n = true -> has_char cDollar (vals n) = false ->
+  (exists ret, expand_uri env retr (ref_text n) = Ok ret /\ as_string ret = Some (vals n)) ->
+  ref_good env retr vals n.
+Proof. intros. unfold ref_good. auto. Qed.
+
+Example ex_ts_wf : wf env retr vals ex_ts.
+Proof.
+  unfold wf, ex_ts. cbn [wf_from].
+  repeat match goal with
+         | |- _ /\ _ => split
+         | |- ref_good _ _ _ _ => apply good_name; try reflexivity; eexists; split; vm_compute; reflexivity
+         | |- _ = _ => reflexivity
+         | |- _ -> _ <> _ => discriminate
+         | |- True => exact I
+         end.
+Qed.
+Example ex_ts_anchored : anchored vals ex_ts.
+Proof. left. reflexivity. Qed.
+Example ex_ts_text : flatten ex_ts = L"x${env:A}$$${A}$y}$${e}${env:N}".
+Proof. reflexivity. Qed.
+Example ex_ts_sem : sem vals ex_ts = L"xva$va$y}${e}42".
+Proof. vm_compute. reflexivity. Qed.
+Example ex_ts_resolved : resolve_string env retr (flatten ex_ts) = Ok (CStr (sem vals ex_ts)).
+Proof. vm_compute. reflexivity. Qed.
+(* anchored by weight only: two references with non-empty text *)
+Example ex_two_refs : anchored vals [TRef (L"env:A"); TRef (L"env:B")].
+Proof. right. vm_compute. lia. Qed.
+
+(* whole_value_typed / whole_value_string / self_cycle_rejected: hypotheses satisfiable *)
+Example ex_typed_hyp :
+  name_ok (L"env:N") = true /\ ref_ok env (L"env:N") = true /\
+  expand_uri env retr (ref_text (L"env:N")) = Ok (mkRet (CInt 42) (Some (L"42"))) /\
+  scalar (CInt 42) = true /\ no_ref_b (L"42") = true.
+Proof. repeat split; vm_compute; reflexivity. Qed.
+Example ex_cycle_hyp :
+  expand_uri env retr (ref_text (L"env:CY")) = Ok (mkRet (CStr (ref_text (L"env:CY"))) None).
+Proof. vm_compute. reflexivity. Qed.
+Example ex_find_uri : find_uri env (L"a$${x}b}${env:A$}") = Some (ref_text (L"env:A$")).
+Proof. vm_compute. reflexivity. Qed.
+
+(* plain text: hypotheses satisfiable, and both are needed *)
+Example ex_plain : no_ref_b (L"a$b{}c ${env:A") = true /\ no_dd (L"a$b{}c ${env:A") = true.
+Proof. split; vm_compute; reflexivity. Qed.
+Example ex_not_plain : no_ref_b (L"${x}") = false /\ no_dd (L"a$$b") = false.
+Proof. split; vm_compute; reflexivity. Qed.
+
+(* merge: nested maps merge, a list replaces, nil replaces, untouched keys survive *)
+Definition m1 : list (str * cv) :=
+  [(L"a", CMap [(L"x", CInt 1); (L"y", CInt 2)]); (L"l", CList [CInt 1; CInt 2]); (L"k", CStr (L"keep")); (L"n", CInt 7)].
+Definition m2 : list (str * cv) :=
+  [(L"a", CMap [(L"y", CInt 20); (L"z", CInt 30)]); (L"l", CList [CInt 9]); (L"n", CNil); (L"new", CBool true)].
+Example ex_merge :
+  merge_map m1 m2 =
+  [(L"a", CMap [(L"x", CInt 1); (L"y", CInt 20); (L"z", CInt 30)]); (L"l", CList [CInt 9]); (L"k", CStr (L"keep"));
+   (L"n", CNil); (L"new", CBool true)].
+Proof. vm_compute. reflexivity. Qed.
+Example ex_inert : forallb inert_map [m1; m2] = true.
+Proof. vm_compute. reflexivity. Qed.
+Example ex_resolve_tree :
+  resolve env retr [CMap [(L"k", CStr (L"${env:N}")); (L"s", CMap [(L"t", CStr (L"$$${env:A}"))])]; CNil;
+                    CMap [(L"s", CMap [(L"u", CList [CStr (L"${env:M}")])])]]
+  = Ok (CMap [(L"k", CExp (CInt 42) (L"42"));
+              (L"s", CMap [(L"t", CStr (L"$va")); (L"u", CList [CMap [(L"a", CInt 1)]])])]).
+Proof. vm_compute. reflexivity. Qed.
+
+(* a cycle whose member mentions itself twice doubles in every round (finding C12-EXPCYCLE, model only) *)
+Definition retr2 (sch opq : str) : res retrieved := Ok (mkRet (CStr (L"${env:X}${env:X}")) None).
+Fixpoint iter_expand (k : nat) (v : cv) : option cv :=
+  match k with
+  | 0 => Some v
+  | S k' => match expand_value env retr2 v with
+            | Ok (v', true) => iter_expand k' v'
+            | _ => None
+            end
+  end.
+Definition cv_len (v : cv) : nat := match v with CStr s => length s | CExp _ o => length o | _ => 0 end.
+Example ex_exponential_growth :
+  map (fun k => option_map cv_len (iter_expand k (CStr (L"${env:X}")))) [2; 3; 4; 5; 8]
+  = [Some 32; Some 64; Some 128; Some 256; Some 2048].
+Proof. vm_compute. reflexivity. Qed.
